@@ -566,6 +566,49 @@ MUTANTS += [
      "edits": _benign("C14-benign-buffer-accessor-inlined") + [("src/decoder.rs", "            let buffer = &self.buffer[self.buffer_offset..self.buffer_size];\n", "            let buffer = &self.buffer[..self.buffer_size];\n")]},
 ]
 
+# ---- round G4: difference-form guards, private helper with a weaker entry (carry full), chunks_exact fast path ----------------------
+FILL_GUARD = "        while self.buffer_size + 3 <= self.buffer.len() {\n"
+WRITE_FN_HEAD = "impl<W: Write> Write for Base64Encoder<W> {\n"
+TRIPLE_HELPER = (
+    "impl<W: Write> Base64Encoder<W> {\n"
+    "    fn write_triple(&mut self) -> std::io::Result<()> {\n"
+    "        debug_assert_eq!(self.size, self.buffer.len());\n"
+    + WRITE_EMIT.replace(I16, I8)
+    + "        self.size = 0;\n        Ok(())\n    }\n}\n\n"
+)
+WRITE_LOOP_HELPER = (WRITE_LOOP_HEAD + I12 + "self.size += 1;\n" + I12 + "if self.size == 3 {\n" + I16 + "self.write_triple()?;\n" + I12 + "}\n" + I8 + "}\n")
+
+
+def _fast_path(chunk, size_stmt="                self.size = 3;\n"):
+    return (I8 + "let mut rest = buf;\n" + I8 + "if self.size == 0 {\n" + I12 + "let mut triples = buf.chunks_exact(%d);\n" % chunk
+            + I12 + "for triple in triples.by_ref() {\n" + I16 + "self.buffer.copy_from_slice(triple);\n" + size_stmt
+            + I16 + "self.write_triple()?;\n" + I12 + "}\n" + I12 + "rest = triples.remainder();\n" + I8 + "}\n"
+            + WRITE_LOOP_HELPER.replace("for b in buf.iter().copied()", "for b in rest.iter().copied()"))
+
+
+MUTANTS += [
+    {"id": "C14-benign-fill-guard-difference", "prop": "C14", "benign": True,
+     "edits": [("src/decoder.rs", FILL_GUARD, "        while self.buffer.len() - self.buffer_size >= 3 {\n")]},
+    {"id": "C14-benign-fill-guard-difference-flipped", "prop": "C14", "benign": True,
+     "edits": [("src/decoder.rs", FILL_GUARD, "        while 3 <= self.buffer.len() - self.buffer_size {\n")]},
+    {"id": "C14-benign-fill-guard-difference-strict", "prop": "C14", "benign": True,
+     "edits": [("src/decoder.rs", FILL_GUARD, "        while self.buffer.len() - self.buffer_size > 2 {\n")]},
+    {"id": "C14-benign-fill-guard-negated-difference", "prop": "C14", "benign": True,
+     "edits": [("src/decoder.rs", FILL_GUARD, "        while !(self.buffer.len() - self.buffer_size < 3) {\n")]},
+    {"id": "C14-fill-guard-difference-too-small", "prop": "C14", "expect": "",
+     "edits": [("src/decoder.rs", FILL_GUARD, "        while self.buffer.len() - self.buffer_size >= 2 {\n")]},
+    {"id": "C14-benign-write-triple-helper", "prop": "C14", "benign": True,
+     "edits": [("src/encoder.rs", WRITE_FN_HEAD, TRIPLE_HELPER + WRITE_FN_HEAD), ("src/encoder.rs", WRITE_LOOP, WRITE_LOOP_HELPER)]},
+    {"id": "C14-benign-write-chunks-exact-fast-path", "prop": "C14", "benign": True,
+     "edits": [("src/encoder.rs", WRITE_FN_HEAD, TRIPLE_HELPER + WRITE_FN_HEAD), ("src/encoder.rs", WRITE_LOOP, _fast_path(3))]},
+    {"id": "C14-write-triple-helper-no-reset", "prop": "C14", "expect": "",
+     "edits": [("src/encoder.rs", WRITE_FN_HEAD, TRIPLE_HELPER.replace("        self.size = 0;\n", "") + WRITE_FN_HEAD), ("src/encoder.rs", WRITE_LOOP, WRITE_LOOP_HELPER)]},
+    {"id": "C14-write-fast-path-chunks-of-2", "prop": "C14", "expect": "",
+     "edits": [("src/encoder.rs", WRITE_FN_HEAD, TRIPLE_HELPER + WRITE_FN_HEAD), ("src/encoder.rs", WRITE_LOOP, _fast_path(2))]},
+    {"id": "C14-write-fast-path-when-carry-nonempty", "prop": "C14", "expect": "",
+     "edits": [("src/encoder.rs", WRITE_FN_HEAD, TRIPLE_HELPER + WRITE_FN_HEAD), ("src/encoder.rs", WRITE_LOOP, _fast_path(3).replace("if self.size == 0 {", "if self.size <= 1 {"))]},
+]
+
 # Behaviour-preserving edits on which the C14 *rules* are silent but the shared numeric engine (sa/absint.py, sa/summaries.py, sa/structinv.py:
 # TOTAL / INV-* of `obligations()`) cannot discharge its obligations yet.  Not part of MUTANTS; move them there when the engine has
 #   - a summary for `<uN as From<uM>>::from` (lossless widening: result = argument),
